@@ -578,6 +578,50 @@ example (r0 : Bytes) (h0 : r0.length = 32) :
 
 end C08
 
+namespace C08
+open Replay HS
+
+/-- non-vacuity of `c08_once`: with the toy primitives, a history that presents a packet, lets the
+cleaner pass, and presents the bit-255-flipped copy satisfies every hypothesis of the theorem (and the
+copy is indeed refused: one acceptance) -/
+def exR : Bytes := List.replicate 31 3 ++ [5]
+def exCt : Bytes := HS.mkPlain ⟨List.replicate 16 1, 7, [115], 1, false⟩ 1000 ++ zeros 16
+def exH : List CEv := [.present ⟨exR, exCt⟩ 1000000000000, .clean 1001000000000, .present ⟨flip255 exR, exCt⟩ 1002000000000]
+
+set_option maxRecDepth 20000 in
+example : (exH.map cclock).Pairwise (· ≤ ·) ∧ (∀ r ∈ randsOf exH, r.length = 32) ∧
+    INT toy [] (· ∈ randsOf exH) ∧ DH12 toy [] (· ∈ randsOf exH) ∧
+    (∀ a b s, toy.dh a b = some s → s.length = 32) ∧ (crunEv toy [] exH).acc.length = 1 := by
+  have h0 : exR.length = 32 := by decide
+  have hU : ∀ r, r ∈ randsOf exH ↔ (r = exR ∨ r = flip255 exR) := by
+    intro r; simp [exH, randsOf]
+  have hUlen : ∀ r, r ∈ randsOf exH → r.length = 32 := by
+    intro r hr; rcases (hU r).1 hr with rfl | rfl
+    · exact h0
+    · simp [flip255]; omega
+  have hUc : ∀ r, r ∈ randsOf exH → clear255 r = clear255 exR := by
+    intro r hr; rcases (hU r).1 hr with rfl | rfl
+    · rfl
+    · exact clear_flip exR h0
+  have hUt : ∀ r, r ∈ randsOf exH → r.take 12 = exR.take 12 := by
+    intro r hr; rcases (hU r).1 hr with rfl | rfl
+    · rfl
+    · exact flip255_take12 exR h0
+  refine ⟨by decide, hUlen, ?_, ?_, ?_, by decide⟩
+  · intro r r' c p p' hr hr' _ _
+    refine ⟨?_, by rw [hUt r hr, hUt r' hr']⟩
+    simp [toy, hUlen r hr, hUlen r' hr', hUc r hr, hUc r' hr']
+  · intro r r' hr hr' _ _ _ _ _
+    rw [hUc r hr, hUc r' hr']
+  · intro a b s h
+    simp only [toy] at h
+    split at h
+    · have : s = clear255 b := by simpa using h.symm
+      rw [this]; simp [clear255]; omega
+    · simp at h
+
+end C08
+
 #print axioms C08.c08_once
 #print axioms C08.c08_retention
 #print axioms C08.c08_concurrent
